@@ -25,6 +25,38 @@ type raceCfg struct {
 	tracked map[string]bool
 	mutexes map[string]bool
 	written map[string]bool // fields written by some function reachable from the goroutine roots (nil = not computed)
+	// an object shared through several references: calls of these functions are accesses of it ("name:w" / "name:r")
+	objCalls map[string]string
+	// tracked package-level variables: full name -> tracked name
+	globals map[string]string
+}
+
+func (rc *raceCfg) callAccess(c *ssa.CallCommon) (string, string) {
+	if rc == nil || rc.objCalls == nil {
+		return "", ""
+	}
+	f := c.StaticCallee()
+	if f == nil {
+		return "", ""
+	}
+	if v, ok := rc.objCalls[f.String()]; ok {
+		n, w := accField(v)
+		if w {
+			return n, "w"
+		}
+		return n, "r"
+	}
+	return "", ""
+}
+
+func (rc *raceCfg) globalOf(v ssa.Value) string {
+	if rc == nil || rc.globals == nil {
+		return ""
+	}
+	if g, ok := v.(*ssa.Global); ok {
+		return rc.globals[g.String()]
+	}
+	return ""
 }
 
 // computeWritten: fields with at least one write in the functions reachable from the roots.
@@ -95,7 +127,7 @@ func newRaceCfg(pkg *ssa.Package, typeName string) *raceCfg {
 }
 
 func (rc *raceCfg) fieldOf(fa *ssa.FieldAddr) string {
-	if rc == nil {
+	if rc == nil || rc.named == nil {
 		return ""
 	}
 	pt, ok := fa.X.Type().Underlying().(*types.Pointer)
@@ -219,6 +251,17 @@ func (rc *raceCfg) opsIn(fn *ssa.Function) bool {
 				if op, _ := rc.mutexOp(&x.Call); op != "" {
 					return true
 				}
+				if f, _ := rc.callAccess(&x.Call); f != "" {
+					return true
+				}
+			case *ssa.UnOp:
+				if x.Op == token.MUL && rc.globalOf(x.X) != "" {
+					return true
+				}
+			case *ssa.Store:
+				if rc.globalOf(x.Addr) != "" {
+					return true
+				}
 			case *ssa.Defer:
 				if op, _ := rc.mutexOp(&x.Call); op != "" {
 					return true
@@ -261,18 +304,26 @@ func (f raceFinding) label() string {
 }
 
 func checkRaces(id, tier string) *raceResult {
-	t0 := time.Now()
 	res := &raceResult{Coverage: map[string]interface{}{}}
+	checkHandlerRaces(id, tier, res)
+	checkWriterRaces(id, tier, res)
+	return res
+}
+
+// ---- model 1: the block follower, the background worker, Stop and one API call, sharing NtfnsHandler ----
+
+func checkHandlerRaces(id, tier string, res *raceResult) {
+	t0 := time.Now()
 	prog, err := loadProgram([]string{"masswallet"})
 	if err != nil {
 		res.Inconclusive = append(res.Inconclusive, "race check: "+err.Error())
-		return res
+		return
 	}
 	pkg := prog.Pkgs[modulePath+"/masswallet"]
 	rc := newRaceCfg(pkg, "NtfnsHandler")
 	if rc == nil {
 		res.Inconclusive = append(res.Inconclusive, "race check: type NtfnsHandler not found")
-		return res
+		return
 	}
 	rel := computeRelevantRace(pkg, rc)
 	var tracked, mutexes []string
@@ -307,7 +358,7 @@ func checkRaces(id, tier string) *raceResult {
 		}
 	}
 	if len(res.Inconclusive) > 0 {
-		return res
+		return
 	}
 	var allRoots []*ssa.Function
 	for _, rs := range roots {
@@ -323,12 +374,11 @@ func checkRaces(id, tier string) *raceResult {
 		p, lines := buildProcRace(prog, rel, n, roots[n], rc)
 		raw := p.N
 		epsClosure(p)
-		fmt.Fprintf(os.Stderr, "racebmc: %s: %d nodes before the tau closure\n", n, raw)
 		model.procs = append(model.procs, p)
 		skeleton = append(skeleton, lines...)
 		states += p.N
 		trans += len(p.Edges)
-		fmt.Fprintf(os.Stderr, "racebmc: %s automaton: %d nodes, %d edges notes=%v\n", n, p.N, len(p.Edges), p.Notes)
+		fmt.Fprintf(os.Stderr, "racebmc: %s automaton: %d nodes (%d before the tau closure), %d edges notes=%v\n", n, p.N, raw, len(p.Edges), p.Notes)
 		for _, note := range p.Notes {
 			if strings.Contains(note, "budget") || strings.Contains(note, "fell off") || strings.Contains(note, "depth cut") {
 				res.Inconclusive = append(res.Inconclusive, "race check: "+n+": "+note)
@@ -343,8 +393,94 @@ func checkRaces(id, tier string) *raceResult {
 	if tier == "thorough" {
 		k = 20
 	}
+	perClass, samples, queries, solverSec := raceQueries(id, "handler", "c17_race_bmc", model, k, runRaceDetector, res)
+	res.Coverage["handler"] = map[string]interface{}{
+		"tracked_fields": tracked, "mutexes": mutexes, "api_entry_points": apiNames, "automata_states": states, "automata_edges": trans,
+		"conflicting_access_pairs": len(model.conflicts), "queries_by_class": perClass, "bound_steps": k, "solver_queries": queries, "solver_seconds": round2(solverSec),
+		"solver": "z3 4.8.12 (/usr/bin/z3)", "samples": samples, "skeleton": skeleton, "wall_s": round2(time.Since(t0).Seconds()),
+	}
+	res.Assumptions = append(res.Assumptions,
+		"race check (handler): shared memory = the plain fields of NtfnsHandler ("+strings.Join(tracked, ", ")+"); objects reached through them (the maps' buckets, the task channel object) are represented by the field; other structs (keystore caches, stores) are outside",
+		"race check (handler): goroutines = follower, worker, Stop, one API call of an exported handler method ("+strings.Join(apiNames, ", ")+"), environment of 1 block and 1 queued task; Start has returned (its own accesses happen before the goroutines exist)",
+		"race check: a race is a reachable state in which two goroutines' next actions access the same tracked memory, at least one writing; the mutexes ("+strings.Join(mutexes, ", ")+"; muTr in the driver model) and the channel hand-shakes are modelled, so locked or ordered accesses never meet; silent moves are closed (trace equivalence)",
+		fmt.Sprintf("race check (handler): bounded to %d scheduler steps", k))
+}
+
+// ---- model 2: two writers of the LevelDB driver sharing the package's single goleveldb batch ----
+
+func checkWriterRaces(id, tier string, res *raceResult) {
+	t0 := time.Now()
+	prog, err := loadProgram([]string{"masswallet/db/ldb"})
+	if err != nil {
+		res.Inconclusive = append(res.Inconclusive, "race check (driver): "+err.Error())
+		return
+	}
+	pkg := prog.Pkgs[modulePath+"/masswallet/db/ldb"]
+	rc := newRaceCfg(pkg, "LevelDB")
+	root := pkg.Func("VerifC17Writer")
+	if rc == nil || root == nil {
+		res.Inconclusive = append(res.Inconclusive, "race check (driver): type LevelDB or the writer harness not found")
+		return
+	}
+	rc.tracked = map[string]bool{} // the driver's own fields are set once at construction
+	const lb = "github.com/syndtr/goleveldb/leveldb"
+	rc.objCalls = map[string]string{
+		"(*" + lb + ".Batch).Reset": "sharedBatch:w", "(*" + lb + ".Batch).Put": "sharedBatch:w", "(*" + lb + ".Batch).Delete": "sharedBatch:w",
+		"(*" + lb + ".Batch).Load": "sharedBatch:w", "(*" + lb + ".Batch).Len": "sharedBatch:r", "(*" + lb + ".Batch).Dump": "sharedBatch:r",
+		"(*" + lb + ".Batch).Replay": "sharedBatch:r", "(*" + lb + ".DB).Write": "sharedBatch:r",
+	}
+	rc.globals = map[string]string{}
+	for name, m := range pkg.Members {
+		if g, ok := m.(*ssa.Global); ok && name == "innerBatch" {
+			rc.globals[g.String()] = "innerBatch"
+		}
+	}
+	if len(rc.globals) == 0 {
+		res.Inconclusive = append(res.Inconclusive, "race check (driver): package variable innerBatch not found")
+		return
+	}
+	rel := computeRelevantRace(pkg, rc)
+	model := &bmcModel{caps: map[string]int{}, pcBits: 10}
+	var skeleton []string
+	states, trans := 0, 0
+	for _, n := range []string{"writer1", "writer2"} {
+		p, lines := buildProcRace(prog, rel, n, []*ssa.Function{root}, rc)
+		raw := p.N
+		epsClosure(p)
+		model.procs = append(model.procs, p)
+		if n == "writer1" {
+			skeleton = append(skeleton, lines...)
+		}
+		states += p.N
+		trans += len(p.Edges)
+		fmt.Fprintf(os.Stderr, "racebmc: %s automaton: %d nodes (%d before the tau closure), %d edges notes=%v\n", n, p.N, raw, len(p.Edges), p.Notes)
+		for _, note := range p.Notes {
+			if strings.Contains(note, "budget") || strings.Contains(note, "fell off") || strings.Contains(note, "depth cut") {
+				res.Inconclusive = append(res.Inconclusive, "race check (driver): "+n+": "+note)
+			}
+		}
+	}
+	k := 16
+	if tier == "thorough" {
+		k = 24
+	}
+	perClass, samples, queries, solverSec := raceQueries(id, "driver", "c17_race_bmc_driver", model, k, runWriterRaceDetector, res)
+	res.Coverage["driver"] = map[string]interface{}{
+		"tracked": []string{"package variable innerBatch", "the goleveldb batch it points to (every *leveldb.Batch of the package: calls of Reset/Put/Delete/Load write it, Len/Dump/Replay and DB.Write read it)"},
+		"mutexes": []string{"muTr"}, "automata_states": states, "automata_edges": trans,
+		"conflicting_access_pairs": len(model.conflicts), "queries_by_class": perClass, "bound_steps": k, "solver_queries": queries, "solver_seconds": round2(solverSec),
+		"solver": "z3 4.8.12 (/usr/bin/z3)", "samples": samples, "skeleton": skeleton, "wall_s": round2(time.Since(t0).Seconds()),
+	}
+	res.Assumptions = append(res.Assumptions,
+		"race check (driver): two goroutines each run one write transaction of the LevelDB driver (BeginTx, bucket look-up, Put, Delete, Commit or Rollback: harness VerifC17Writer calling the real functions); readers do not touch the batch",
+		fmt.Sprintf("race check (driver): bounded to %d scheduler steps; goleveldb's own synchronisation is not modelled", k))
+}
+
+// raceQueries: one query per class of conflicting accesses (same memory, same pair of functions), all in parallel;
+// candidates are confirmed with the race detector before they are reported.
+func raceQueries(id, modelName, harness string, model *bmcModel, k int, detector func() string, res *raceResult) ([]map[string]interface{}, []interface{}, int, float64) {
 	script, labels := model.smt(k, 1, 1)
-	fmt.Fprintf(os.Stderr, "racebmc: k=%d, %d labels, %d conflicting access pairs, script %d bytes\n", k, len(labels), len(model.conflicts), len(script))
+	fmt.Fprintf(os.Stderr, "racebmc: %s model: k=%d, %d labels, %d conflicting access pairs, script %d bytes\n", modelName, k, len(labels), len(model.conflicts), len(script))
 	if os.Getenv("VERIF_DEBUG") != "" {
 		cls := map[string]int{}
 		for _, c := range model.conflicts {
@@ -355,7 +491,6 @@ func checkRaces(id, tier string) *raceResult {
 	known := loadKnown()
 	queries, solverSec := 0, 0.0
 	var findings []raceFinding
-	// one query per class of conflicting accesses (same field, same pair of functions), all in parallel
 	classes := map[string][]int{}
 	var classNames []string
 	for ci, c := range model.conflicts {
@@ -441,24 +576,24 @@ func checkRaces(id, tier string) *raceResult {
 	var samples []interface{}
 	var report string
 	if len(findings) > 0 {
-		report = runRaceDetector()
+		report = detector()
 		if d := os.Getenv("VERIF_RACE_DUMP"); d != "" {
-			os.WriteFile(d, []byte(report), 0o644)
+			os.WriteFile(d+"."+modelName, []byte(report), 0o644)
 		}
 	}
 	for i, f := range findings {
-		rp := filepath.Join(verifRoot, "replays", fmt.Sprintf("%s-race-%d.json", id, i))
-		js, _ := json.MarshalIndent(map[string]interface{}{"property": id, "kind": "data-race", "field": f.field, "access_a": f.pname + " " + f.ppos, "access_b": f.qname + " " + f.qpos, "trace": f.trace}, "", " ")
+		rp := filepath.Join(verifRoot, "replays", fmt.Sprintf("%s-race-%s-%d.json", id, modelName, i))
+		js, _ := json.MarshalIndent(map[string]interface{}{"property": id, "kind": "data-race", "memory": f.field, "access_a": f.pname + " " + f.ppos, "access_b": f.qname + " " + f.qpos, "trace": f.trace}, "", " ")
 		os.MkdirAll(filepath.Join(verifRoot, "replays"), 0o755)
 		os.WriteFile(rp, js, 0o644)
-		desc := fmt.Sprintf("field %s: %s (%s, %s) and %s (%s, %s) can be the next actions of two goroutines", f.field, f.ppos, f.pname, rw(f.pw), f.qpos, f.qname, rw(f.qw))
+		desc := fmt.Sprintf("%s: %s (%s, %s) and %s (%s, %s) can be the next actions of two goroutines", f.field, f.ppos, f.pname, rw(f.pw), f.qpos, f.qname, rw(f.qw))
 		confirmed, note := raceInReport(report, f)
 		samples = append(samples, map[string]interface{}{"race": desc, "trace": f.trace, "native": note})
 		if !confirmed {
 			res.Inconclusive = append(res.Inconclusive, "race candidate not confirmed by the race detector: "+desc+" ("+note+")")
 			continue
 		}
-		if kf := matchKnownLabel(known, id, "c17_race_bmc", f.label()); kf != nil {
+		if kf := matchKnownLabel(known, id, harness, f.label()); kf != nil {
 			fmt.Printf("KNOWN-FINDING: property=%s %s\n", id, kf.What)
 			continue
 		}
@@ -469,18 +604,7 @@ func checkRaces(id, tier string) *raceResult {
 	if len(samples) == 0 {
 		samples = append(samples, map[string]interface{}{"result": "no pair of conflicting accesses reachable as simultaneous next actions within the bound", "k": k})
 	}
-	res.Coverage = map[string]interface{}{
-		"tracked_fields": tracked, "mutexes": mutexes, "api_entry_points": apiNames, "automata_states": states, "automata_edges": trans,
-		"conflicting_access_pairs": len(model.conflicts), "queries_by_class": perClass, "bound_steps": k, "solver_queries": queries, "solver_seconds": round2(solverSec),
-		"solver": "z3 4.8.12 (/usr/bin/z3)", "samples": samples, "skeleton": skeleton, "wall_s": round2(time.Since(t0).Seconds()),
-	}
-	res.Assumptions = []string{
-		"race check: shared memory = the plain fields of NtfnsHandler (" + strings.Join(tracked, ", ") + "); objects reached through them (the maps' buckets, the task channel object) are represented by the field; other structs (keystore caches, stores) are outside",
-		"race check: goroutines = follower, worker, Stop, one API call of an exported handler method (" + strings.Join(apiNames, ", ") + "), environment of 1 block and 1 queued task; Start has returned (its own accesses happen before the goroutines exist)",
-		"race check: a race is a reachable state in which two goroutines' next actions access the same field, at least one writing; mutex " + strings.Join(mutexes, ", ") + " and the channel hand-shakes are modelled, so locked or ordered accesses never meet",
-		fmt.Sprintf("race check: bounded to %d scheduler steps", k),
-	}
-	return res
+	return perClass, samples, queries, solverSec
 }
 
 func rw(w bool) string {
@@ -530,7 +654,7 @@ func raceInReport(report string, f raceFinding) (bool, string) {
 	blocks := raceBlockRe.FindAllString(report, -1)
 	for _, b := range blocks {
 		if strings.Contains(b, la) && strings.Contains(b, lb) {
-			return true, "race detector (go test -race, real handle/worker goroutines and API calls): DATA RACE report names " + la + " and " + lb
+			return true, "race detector (go test -race on the real goroutines): DATA RACE report names " + la + " and " + lb
 		}
 	}
 	// same pair of functions (the report may name another line of the same function: e.g. the load of the field
@@ -538,7 +662,7 @@ func raceInReport(report string, f raceFinding) (bool, string) {
 	fa, fb := detectorFuncName(pa[0]), detectorFuncName(pb[0])
 	for _, b := range blocks {
 		if strings.Contains(b, fa) && strings.Contains(b, fb) && (strings.Contains(b, la) || strings.Contains(b, lb)) {
-			return true, "race detector (go test -race, real handle/worker goroutines and API calls): DATA RACE report names " + fa + " and " + fb
+			return true, "race detector (go test -race on the real goroutines): DATA RACE report names " + fa + " and " + fb
 		}
 	}
 	return false, fmt.Sprintf("race detector reported %d race(s), none naming both %s and %s", len(blocks), la, lb)
@@ -582,6 +706,88 @@ func runRaceDetector() string {
 	out, _ := cmd.CombinedOutput()
 	return string(out)
 }
+
+// runWriterRaceDetector: two goroutines running write transactions of the real LevelDB driver under -race.
+func runWriterRaceDetector() string {
+	tmp, err := os.MkdirTemp("", "verif-c17w-")
+	if err != nil {
+		return ""
+	}
+	defer os.RemoveAll(tmp)
+	tf := filepath.Join(tmp, "zz_verif_c17_race_test.go")
+	os.WriteFile(tf, []byte(writerRaceDriverSrc), 0o644)
+	repl := map[string]string{filepath.Join(repoRoot, "masswallet", "db", "ldb", "zz_verif_c17_race_test.go"): tf}
+	hdir := filepath.Join(verifRoot, "harness", "overlay", "masswallet", "db", "ldb")
+	ents, _ := os.ReadDir(hdir)
+	for _, e := range ents {
+		if strings.HasSuffix(e.Name(), ".go") {
+			repl[filepath.Join(repoRoot, "masswallet", "db", "ldb", e.Name())] = filepath.Join(hdir, e.Name())
+		}
+	}
+	for _, extra := range []string{"zzverifrt", "zzverifmdb"} {
+		d := filepath.Join(verifRoot, "harness", "overlay", extra)
+		es, _ := os.ReadDir(d)
+		for _, e := range es {
+			if strings.HasSuffix(e.Name(), ".go") {
+				repl[filepath.Join(repoRoot, extra, e.Name())] = filepath.Join(d, e.Name())
+			}
+		}
+	}
+	js, _ := json.Marshal(map[string]interface{}{"Replace": repl})
+	ov := filepath.Join(tmp, "overlay.json")
+	os.WriteFile(ov, js, 0o644)
+	cmd := exec.Command("go", "test", "-race", "-tags", "verif", "-vet=off", "-count=1", "-v", "-run", "^TestVerifC17WriterRace$", "-overlay", ov, "-timeout", "300s", ".")
+	cmd.Dir = filepath.Join(repoRoot, "masswallet", "db", "ldb")
+	cmd.Env = append(os.Environ(), "GOFLAGS=-mod=mod", "GOPROXY=off", "GOSUMDB=off", "GOTOOLCHAIN=local", "GORACE=halt_on_error=0")
+	out, _ := cmd.CombinedOutput()
+	return string(out)
+}
+
+const writerRaceDriverSrc = `//go:build verif
+
+package ldb
+
+import (
+	"fmt"
+	"os"
+	"sync"
+	"testing"
+)
+
+func TestVerifC17WriterRace(t *testing.T) {
+	dir, err := os.MkdirTemp("", "verif-c17w-db-")
+	if err != nil {
+		fmt.Println("VERIF-C17 setup-failed", err)
+		return
+	}
+	defer os.RemoveAll(dir)
+	d, err := CreateDB(dir + "/w.db")
+	if err != nil {
+		fmt.Println("VERIF-C17 setup-failed", err)
+		return
+	}
+	defer d.Close()
+	l := d.(*LevelDB)
+	tx, _ := l.BeginTx()
+	if _, err := tx.CreateTopLevelBucket("b"); err != nil {
+		fmt.Println("VERIF-C17 setup-failed", err)
+		return
+	}
+	_ = tx.Commit()
+	var wg sync.WaitGroup
+	for g := 0; g < 2; g++ {
+		wg.Add(1)
+		go func() {
+			defer wg.Done()
+			for i := 0; i < 300; i++ {
+				VerifC17Writer(l)
+			}
+		}()
+	}
+	wg.Wait()
+	fmt.Println("VERIF-C17 driver-finished")
+}
+`
 
 const raceDriverSrc = `//go:build verif
 
